@@ -16,6 +16,7 @@ package main
 import (
 	"context"
 	"fmt"
+	"go.opentelemetry.io/collector/component"
 	"math/rand"
 	"os"
 	"path/filepath"
@@ -315,6 +316,11 @@ func observe(conf *confmap.Conf, kind ykind) []*obsPos {
 			} `mapstructure:"mo"`
 		}
 		out = append(out, decodeInto(conf, "map-of-struct:string", &t2, func() any { return t2.MO["a"].X }))
+		// a map of strings keyed by a type that is read from text (component ids in a `headers`-like map)
+		var t4 struct {
+			MS map[component.ID]string `mapstructure:"ms"`
+		}
+		out = append(out, decodeInto(conf, "map-keyed-by-id:string", &t4, func() any { return t4.MS[component.MustNewID("x")] }))
 		var t3 struct {
 			PS *string `mapstructure:"ps"`
 		}
@@ -474,7 +480,7 @@ func wantAt(tree any, pos string) (want string, wantErr bool, ok bool) {
 		}
 		return av, false, true
 	case "string", "[]string", "map[string]string", "held:string", "held:[]string", "held:map[string]string", "squash:string",
-		"ptr-struct:string", "named:string", "unmarshaler:string", "sub:string", "slice-of-struct:string", "map-of-struct:string", "ptr:string":
+		"ptr-struct:string", "named:string", "unmarshaler:string", "sub:string", "slice-of-struct:string", "map-of-struct:string", "ptr:string", "map-keyed-by-id:string":
 		if !hasS {
 			return "", false, false
 		}
